@@ -9,6 +9,9 @@ ID = "C18"
 LEAN_MODULES = ["LhasaV.Props.C18"]
 VH_FEATURES = ["tool"]
 THEOREMS = {"safe_output_printable": "full: every byte string", "safe_keeps_printable": "full",
+            "test_output_printable": "full: stdout of lha t on every archive/options (progress bars, Tested / CRC error, VERIFY)",
+            "extract_output_printable": "full: stdout of lha x/e/xn on every archive, options, file system, answers",
+            "stderr_printable": "full: prompts and error messages of both modes",
             "listing_printable": "full: every byte of every l/lv/v/vv listing, any quiet level, for ARBITRARY headers",
             "print_banners_printable": "full: lha p = banner segments (printable/newline) + member contents",
             "(t/x progress and error messages go through the sanitiser)": "correspondence only"}
@@ -137,7 +140,7 @@ def run_cli18(env, ctx, op):
         shutil.rmtree(d, ignore_errors=True)
 
 
-def evaluate(ctx, env, cases, with_model):
+def evaluate_own(ctx, env, cases, with_model):
     import sys, check as CK
     P = sys.modules[__name__]
     lib = [c for c in cases if c.note != "cli"]
@@ -166,6 +169,23 @@ def judge_all(case, c_out):
     return None
 
 
+_msgs_eval = None
+
+
+def evaluate(ctx, env, cases, with_model):
+    """own cases + the messages tie: Model/Messages (every printf of src/extract.c, the progress bar, prompts, exit status) against the
+    real tool's stdout / stderr / exit status / tree on generated archives and commands (tools/difftest_msgs.py)"""
+    global _msgs_eval
+    conc, corr, st = evaluate_own(ctx, env, cases, with_model)
+    if _msgs_eval is None:
+        from vlib import dtwrap
+        _msgs_eval = dtwrap.evaluate_with("difftest_msgs.py", ID, quick_scale=0.2, thorough_scale=3.0, extra_env={"DIFFTEST_SEED_OFFSET": "0"})
+    c2, r2, st2 = _msgs_eval(ctx, env, [], with_model)
+    st["evaluations"] = st.get("evaluations", 0) + st2.get("evaluations", 0)
+    ctx.dist["messages-tie-cases"] += st2.get("evaluations", 0)
+    return conc + c2, corr + r2, st
+
+
 def nontrivial(c):
     return c.note == "cli"
 
@@ -180,5 +200,7 @@ def signature(case, c_out, why):
 LEVEL_TEXT = ("Lean theorems: safe_output maps every byte string to printable ASCII; every byte of every listing (l lv v vv, all quiet levels) "
               "is printable or newline for arbitrary headers; lha p output = printable banners + member contents. The models are tied to the real "
               "tool byte for byte (C19, C06) and the byte-set is evaluated on the real stdout/stderr of every mode for hostile header bytes.")
-LEVEL_NOTE = "Partial: the messages of the test/extract modes (t, x, xn) are not modelled in Lean; their byte-set is observed on the real tool for hostile bytes in every field."
-TECHNIQUE = "Lean 4 proof (sanitiser range; printable-output theorem over the listing and print models) + output-byte-set correspondence on the real tool"
+LEVEL_NOTE = ("Partial: libc's printf and the terminal are outside the model; the output of every mode (l lv v vv p t x e xn, stdout and stderr) is "
+              "modelled in Lean, proved printable for every archive, and compared byte for byte with the real tool on generated archives.")
+TECHNIQUE = ("Lean 4 proof (sanitiser range; printable-output theorems over the listing, print, test and extract message models by loop invariant) + "
+             "byte-for-byte output correspondence and output-byte-set observation on the real tool")
